@@ -54,6 +54,19 @@ def tested_names(repo):
                         if isinstance(tg, ast.Name) and tg.id == c.id:
                             if isinstance(v_, ast.Dict): out += [k.value for k in v_.keys if isinstance(k, ast.Constant) and isinstance(k.value, str)]
                             elif isinstance(v_, (ast.Tuple, ast.List, ast.Set)): out += [e.value for e in v_.elts if isinstance(e, ast.Constant) and isinstance(e.value, str)]
+    # names translated through a module-level literal table before the tests:  name = TABLE.get(name, name)  /  TABLE[name]
+    for n in ast.walk(fn):
+        tb = None
+        if isinstance(n, ast.Call) and isinstance(n.func, ast.Attribute) and n.func.attr == "get" and isinstance(n.func.value, ast.Name) and n.args and isinstance(n.args[0], ast.Name) and n.args[0].id == "name":
+            tb = n.func.value.id
+        elif isinstance(n, ast.Subscript) and isinstance(n.value, ast.Name) and isinstance(n.slice, ast.Name) and n.slice.id == "name" and isinstance(n.ctx, ast.Load):
+            tb = n.value.id
+        if tb is None: continue
+        for st_ in repo.module("speckit/analysis.py").body:
+            tg = st_.targets[0] if isinstance(st_, ast.Assign) and len(st_.targets) == 1 else st_.target if isinstance(st_, ast.AnnAssign) else None
+            v_ = getattr(st_, "value", None)
+            if isinstance(tg, ast.Name) and tg.id == tb and isinstance(v_, ast.Dict):
+                out += [k.value for k in v_.keys if isinstance(k, ast.Constant) and isinstance(k.value, str)]
     seen = []
     for x in out:
         if x not in seen: seen.append(x)
